@@ -1,2 +1,4 @@
 from props.client_props import gen_c10
-PROP = {"id": "C10", "stages": [{"name": "client", "target": "h_client", "gen": gen_c10, "shard": 12}], "trivial_tags": [], "rule": "", "assumptions": []}
+PROP = {"id": "C10", "stages": [{"name": "client", "target": "h_client", "gen": gen_c10, "shard": 12}], "trivial_tags": [],
+        "rule": 'login x every code class at USER / PASS / TYPE, connect with user, rename, TYPE and every simple call x 15 reply codes (incl. 230, 331, 332, 350, 421, 530), both configured types, random histories; command lines written vs. the reference automaton driven by the codes received; returned replies; reported transfer type.',
+        "assumptions": ["in-memory control transport (a socket_base subclass) stands in for the TCP control socket; data connections are real loopback TCP", "oracle values (read sizes, kernel-chosen ports, connect results) are taken from the implementation run"]}
